@@ -56,13 +56,13 @@ EdExpected(e) ==
     [] e.op = "ed.vartime_double_scalar_mul_basepoint" -> <<TRUE, PtAdd(SMul(o.a, Pt(e.in[2])), SMul(o.b, BasePt))>>
     [] e.op = "ed.table" -> <<TRUE, SMul(IF Has(e, "clamped") /\ e.clamped THEN Clamp(o.s) ELSE o.s, Pt(e.in[1]))>>
     [] e.op = "ed.table_static" -> <<TRUE, SMul(o.s, BasePt)>>
-    [] e.op \in {"ed.multiscalar_mul", "ed.vartime_multiscalar_mul"} -> <<TRUE, MSM(o.ss, PtsOf(e.points), 1)>>
+    [] e.op \in {"ed.multiscalar_mul", "ed.vartime_multiscalar_mul"} -> <<TRUE, MSMJoint(o.ss, PtsOf(e.points))>>
     [] e.op = "ed.optional_multiscalar_mul" ->
-         IF AnyNone(e.points) THEN <<FALSE, Identity>> ELSE <<TRUE, MSM(o.ss, PtsOf(e.points), 1)>>
+         IF AnyNone(e.points) THEN <<FALSE, Identity>> ELSE <<TRUE, MSMJoint(o.ss, PtsOf(e.points))>>
     [] e.op = "ed.precomputed" ->
-         IF e.mode = "static" THEN <<TRUE, MSM(o.ss, PtsOf(e.static_points), 1)>>
+         IF e.mode = "static" THEN <<TRUE, MSMJoint(o.ss, SubSeq(PtsOf(e.static_points), 1, Len(o.ss)))>>
          ELSE IF AnyNone(e.dynamic_points) THEN <<FALSE, Identity>>
-         ELSE <<TRUE, PtAdd(MSM(o.ss, PtsOf(e.static_points), 1), MSM(o.ds, PtsOf(e.dynamic_points), 1))>>
+         ELSE <<TRUE, PtAdd(MSMJoint(o.ss, SubSeq(PtsOf(e.static_points), 1, Len(o.ss))), MSMJoint(o.ds, PtsOf(e.dynamic_points)))>>
 
 \* a panicking event has obs = {}; evaluate the expectation only when the call returned
 EdPointStep(e) ==
